@@ -1,15 +1,29 @@
 /-
   C07 — Recursive resolution finds the authoritative answer in any delegation tree.
-  FIRST-CLAIM version.  "Each referral it follows is strictly closer to the question name" is
-  `C06_delegation_closer` (the filter only ever yields a delegation whose zone encloses the
-  question name with MORE labels than the delegation in use) combined with the candidate loop
-  taking its next `match_count` from exactly that zone — the second half is proved here.
+
+  "Each referral it follows is strictly closer to the question name than the previous one."
+  Proved here over the machine, for every oracle, zones, cache, question, mode and host order:
+  * the candidates the loop starts with are the name servers of a zone that encloses the
+    question name (`C07_candidates_enclose`);
+  * every iteration of the candidate loop either ends the loop or goes on with loop variables
+    related by `LoopNext`, whose only step that changes the delegation in use is `referral`: to a
+    zone that encloses the question name and has strictly more labels
+    (`C07_candidateLoop_step`, `C07_referrals_strictly_closer`, `candidateLoop_referral_step`);
+  * hence along any run of the loop the depth of the delegation in use never decreases, strictly
+    increases at each referral followed, and never exceeds the number of labels of the question
+    name (`C07_match_count_increases`) — so at most `labels` referrals are followed per question.
   The correctness statement over consistent universes is checked by the Impl-vs-Spec oracle on
   generated universes (expected answer computed from the authoritative data directly).
 -/
 import Resolved.Model.Resolver
+import Resolved.Proofs.ResolverMachineLoop
+import Resolved.Proofs.ResolverMachineExample
 
 namespace Resolved
+
+open Gen
+
+set_option autoImplicit false
 
 /-- The glue short-cut (an A/AAAA question answered from a referral) only ever returns a record
     of that referral, owned by the question name and of the asked type. -/
@@ -20,5 +34,107 @@ theorem C07_glue_shortcut_record (rrs : List RR) (target : Name) (rtype : Nat) (
   have h2 := List.mem_of_find?_eq_some h
   simp at h1
   exact ⟨h2, h1.2, h1.1⟩
+
+/-- `candidate_nameservers` walks up from the given labels: the zone whose name servers it returns
+    is an ancestor-or-self of the name (its labels are a suffix), and it comes with at least one
+    host name. -/
+theorem C07_candidates_enclose (st st' : St) (labels : List Label) (ns : Nameservers)
+    (h : candidateNameservers st labels = (st', some ns)) :
+    ns.name.labels <:+ labels ∧ ns.hostnames ≠ [] :=
+  candidateNameservers_suffix labels st st' ns h
+
+/-- … so the candidates `resolveRec` starts from (when local data holds no delegation) are for a
+    zone enclosing the question name, at most as deep as the question name. -/
+theorem C07_initial_candidates_enclose (st st' : St) (q : Question) (ns : Nameservers)
+    (h : candidateNameservers st q.name.labels = (st', some ns)) :
+    q.name.isSubdomainOf ns.name = true ∧ ns.matchCount ≤ q.name.labels.length := by
+  obtain ⟨h1, _⟩ := candidateNameservers_suffix _ st st' ns h
+  exact ⟨List.isSuffixOf_iff_suffix.mpr h1, h1.length_le⟩
+
+/-- The referral step of the loop, unfolded: when the queried name server's reply validates as a
+    delegation (and the glue short-cut does not apply), the loop goes on with the referral's hosts
+    and `match_count` = the label count of the referral's zone, which is STRICTLY larger than the
+    previous `match_count`, for a zone that encloses the question name. -/
+theorem candidateLoop_referral_step (cfg : RecCfg) (fuel : Nat) (st1 : St) (q : Question) (combined : List RR)
+    (mc : Nat) (addr : FieldVal) (rrs : List RR) (hosts : List Name) (zone : Name)
+    (hlive : (queryNameserver cfg.oracle st1.run addr cfg.port q false).1.timedOut = false)
+    (hresp : (queryNameserver cfg.oracle st1.run addr cfg.port q false).2.bind
+        (fun res => validateNameserverResponse q res mc) = some (.delegation rrs hosts zone))
+    (hglue : glueFor q rrs = none) :
+    loopQuery cfg fuel st1 q combined mc addr =
+      candidateLoop cfg fuel
+        ⟨st1.ctx.cacheInsertAll rrs, (queryNameserver cfg.oracle st1.run addr cfg.port q false).1⟩
+        q combined zone.labels.length (cfg.hostOrder hosts) [] true ∧
+    zone.labels.length > mc ∧ q.name.isSubdomainOf zone = true ∧ hosts ≠ [] := by
+  constructor
+  · unfold loopQuery
+    rw [hlive, hresp]
+    simp only [Bool.false_eq_true, if_false, loopAfterReply, hglue]
+  · cases hm : (queryNameserver cfg.oracle st1.run addr cfg.port q false).2 with
+    | none => rw [hm] at hresp; cases hresp
+    | some m =>
+      rw [hm] at hresp
+      exact C06_delegation_closer q m mc rrs hosts zone hresp
+
+/-- Every iteration of the candidate loop either ends it (error, answer, or hand-over to
+    `resolveCombined` for an alias) or goes on with loop variables related by `LoopNext`. -/
+theorem C07_candidateLoop_step (cfg : RecCfg) (fuel : Nat) (q : Question) (combined : List RR) (a : LoopArgs) :
+    LoopEnds cfg fuel q (candidateLoop cfg (fuel + 1) a.st q combined a.mc a.cands a.next a.locally) ∨
+    ∃ a', LoopNext cfg q a a' ∧
+      candidateLoop cfg (fuel + 1) a.st q combined a.mc a.cands a.next a.locally =
+        candidateLoop cfg fuel a'.st q combined a'.mc a'.cands a'.next a'.locally :=
+  candidateLoop_next cfg fuel q combined a
+
+/-- Each referral followed is strictly closer to the question name than the delegation in use
+    before it; every other step of the loop keeps the delegation. -/
+theorem C07_referrals_strictly_closer (cfg : RecCfg) (q : Question) (a a' : LoopArgs)
+    (h : LoopNext cfg q a a') :
+    a'.mc = a.mc ∨
+    (a.mc < a'.mc ∧ ∃ zone : Name, a'.mc = zone.labels.length ∧ q.name.isSubdomainOf zone = true) := by
+  cases h with
+  | skipFast | switchSlow | dropSlow => exact Or.inl rfl
+  | referral st3 zone hosts h1 h2 h3 => exact Or.inr ⟨h1, zone, rfl, h2⟩
+
+/-- Over a whole run of the loop (any number of iterations): the depth of the delegation in use
+    never decreases and, started at most as deep as the question name (which the initial
+    candidates are, `C07_initial_candidates_enclose`), never exceeds the question name's depth.
+    Since each referral strictly increases it, at most `labels(question) − initial depth`
+    referrals are followed for one question. -/
+theorem C07_match_count_increases (cfg : RecCfg) (q : Question) (a b : LoopArgs) (h : LoopSteps cfg q a b) :
+    a.mc ≤ b.mc ∧ (a.mc ≤ q.name.labels.length → b.mc ≤ q.name.labels.length) :=
+  h.mc_mono
+
+/-- The loop's value IS the value of the last iteration of a chain of `LoopNext` steps from its
+    arguments (so everything the loop does happens at loop variables reached through steps whose
+    only change of delegation is a strictly closer referral); that last iteration ends the loop
+    unless the fuel is used up. -/
+theorem C07_candidateLoop_run (cfg : RecCfg) (q : Question) (combined : List RR) (n : Nat) (a : LoopArgs) :
+    ∃ (k : Nat) (a' : LoopArgs), k ≤ n ∧ LoopChain cfg q a k a' ∧
+      candidateLoop cfg n a.st q combined a.mc a.cands a.next a.locally =
+        candidateLoop cfg (n - k) a'.st q combined a'.mc a'.cands a'.next a'.locally ∧
+      (n - k = 0 ∨ ∃ m, n - k = m + 1 ∧
+        LoopEnds cfg m q (candidateLoop cfg (m + 1) a'.st q combined a'.mc a'.cands a'.next a'.locally)) :=
+  candidateLoop_chain cfg q combined n a
+
+/-- The loop cannot go on forever: with at most `H` hosts per referral, the natural number
+    `(labels − match_count)·(2H+2) + width` strictly decreases at every iteration. -/
+theorem C07_loop_measure_decreases (cfg : RecCfg) (q : Question) (a a' : LoopArgs) (H : Nat)
+    (hH : ∀ hs, (cfg.hostOrder hs).length ≤ H) (h : LoopNext cfg q a a') (hmc : a.mc ≤ q.name.labels.length) :
+    a'.measure q.name.labels.length H < a.measure q.name.labels.length H :=
+  h.measure_lt H hH hmc
+
+/-! ### Non-vacuity: the root hints of the example universe are found as candidates for `x.`,
+    they enclose it, and a `referral` step exists. -/
+
+example : ∃ st' ns, candidateNameservers ⟨exCtx, Run.empty⟩ exQ.name.labels = (st', some ns) ∧
+    ns.name = Name.root ∧ ns.hostnames = [exRootNs] := by
+  refine ⟨(candidateNameservers ⟨exCtx, Run.empty⟩ exQ.name.labels).1, ⟨[exRootNs], Name.root⟩, ?_, rfl, rfl⟩
+  have h : (candidateNameservers ⟨exCtx, Run.empty⟩ exQ.name.labels).2 = some ⟨[exRootNs], Name.root⟩ := by
+    decide +kernel
+  rw [← h]
+
+example : LoopNext exCfg exQ ⟨⟨exCtx, Run.empty⟩, 0, [exRootNs], [], true⟩
+    ⟨⟨exCtx, Run.empty⟩, 2, exCfg.hostOrder [exRootNs], [], true⟩ :=
+  LoopNext.referral _ _ exQName [exRootNs] (by decide) (by decide) (by decide)
 
 end Resolved
